@@ -405,7 +405,115 @@ func c18Upload(c *Ctx, pr *PropertyRun) {
 		r.Violation("close-result|"+fnKey(closeFn), p.Pos(closeFn.Pos()), "fileWriter.Close has no return of the value received from the done channel on the path where closing the pipe succeeded", nil)
 	}
 	_ = errRet
-	r.RequireRole("done-channel", "goroutine-body", "close-method")
+	// the done channel is received from exactly once: in Close, not in a loop
+	fwT := p.NamedType(pkgWebdav, "fileWriter")
+	for _, fn := range p.ModFns {
+		if !inLib(fn) {
+			continue
+		}
+		eachInstr(fn, func(b *ssa.BasicBlock, in ssa.Instruction) {
+			un, ok := in.(*ssa.UnOp)
+			if !ok || un.Op != token.ARROW {
+				return
+			}
+			// a receive from fileWriter.done
+			ld, ok := un.X.(*ssa.UnOp)
+			if !ok {
+				return
+			}
+			fa, ok := ld.X.(*ssa.FieldAddr)
+			if !ok || namedOf(fa.X.Type()) != fwT || fieldName(fa.X.Type(), fa.Field) != "done" {
+				return
+			}
+			r.Role("done-receive")
+			inLoop := false
+			for _, s := range b.Succs {
+				if s.Dominates(b) {
+					inLoop = true
+				}
+			}
+			ok = fn == closeFn && !inLoop
+			r.Ob(ok)
+			if !ok {
+				r.Violation("extra-receive|"+fnKey(fn), p.instrPos(un), fnKey(fn)+" receives from the upload's done channel: exactly one value is ever sent on it, so Close (which must receive it) blocks forever afterwards", nil)
+			}
+		})
+	}
+	// pooled objects must not outlive their return to the pool
+	for _, fn := range p.ModFns {
+		if !inLib(fn) || len(fn.Blocks) == 0 {
+			continue
+		}
+		eachCall(fn, func(site ssa.CallInstruction) {
+			if calleeName(site.Common()) != "(*sync.Pool).Put" || len(site.Common().Args) < 2 {
+				return
+			}
+			r.Role("pool-put")
+			obj := site.Common().Args[1]
+			for {
+				if mi, ok := obj.(*ssa.MakeInterface); ok {
+					obj = mi.X
+					continue
+				}
+				break
+			}
+			escapes := false
+			var visit func(v ssa.Value, depth int)
+			visit = func(v ssa.Value, depth int) {
+				if depth > 4 {
+					return
+				}
+				for _, ref := range refsOf(v) {
+					switch x := ref.(type) {
+					case *ssa.Return:
+						escapes = true
+					case *ssa.MakeInterface:
+						visit(x, depth+1)
+					case *ssa.Store:
+						if x.Val == v {
+							if al, isLocal := x.Addr.(*ssa.Alloc); !isLocal {
+								escapes = true
+							} else {
+								// a result spilled to a local because of defer
+								for _, r2 := range refsOf(al) {
+									if ld, ok := r2.(*ssa.UnOp); ok {
+										for _, r3 := range refsOf(ld) {
+											if _, isRet := r3.(*ssa.Return); isRet {
+												escapes = true
+											}
+										}
+									}
+								}
+							}
+						}
+					case *ssa.Call:
+						if x == site {
+							continue
+						}
+						// handed to a call whose result leaves the function
+						for _, a := range x.Common().Args {
+							if a == v {
+								for _, r2 := range refsOf(x) {
+									switch y := r2.(type) {
+									case *ssa.Return:
+										escapes = true
+									case *ssa.Extract:
+										visit(y, depth+1)
+									}
+								}
+							}
+						}
+					}
+				}
+			}
+			visit(obj, 0)
+			r.Ob(!escapes)
+			if escapes {
+				r.Violation("pooled-object-escapes|"+fnKey(fn), p.instrPos(site), fnKey(fn)+" returns an object to a sync.Pool while a value it returns (or stores) still refers to it: another goroutine can get and overwrite it while it is in use", nil)
+			}
+		})
+	}
+	r.RequireRole("done-channel", "goroutine-body", "close-method", "done-receive")
 }
 
 // chanRoot: the channel value behind loads of a captured cell / conversions.
